@@ -8,6 +8,7 @@ import (
 	"encoding/json"
 	"fmt"
 	"os"
+	"time"
 
 	"github.com/mattn/anko/parser"
 	"verifharness/internal/tlcout"
@@ -92,13 +93,28 @@ func main() {
 		os.Exit(2)
 	}
 	var sum Summary
+	hangs := 0
 	err := tlcout.Each(os.Args[1], func(raw []byte) error {
 		var c Case
 		if err := json.Unmarshal(raw, &c); err != nil {
 			return err
 		}
 		sum.Cases++
-		if m := check(c, &sum); m != nil {
+		if hangs >= 5 {
+			return nil // the scanner does not terminate on several inputs already: the rest of this shard is not run (each hang keeps a core busy)
+		}
+		var m *Mismatch
+		done := make(chan *Mismatch, 1)
+		var local Summary
+		go func() { done <- check(c, &local) }()
+		select {
+		case m = <-done:
+			sum.Tokens += local.Tokens
+		case <-time.After(3 * time.Second):
+			hangs++
+			m = &Mismatch{Src: fmt.Sprint(c.Src), What: "Scanner.Scan did not return within 3 s (the scanner must terminate on every input)"}
+		}
+		if m != nil {
 			sum.NMismatch++
 			if len(sum.Mismatches) < 30 {
 				sum.Mismatches = append(sum.Mismatches, *m)
